@@ -270,11 +270,11 @@ func witnessErrVars(p *pkgFiles) []string {
 		}
 	}
 	// deterministic order: as they appear in witness.go is not guaranteed across files, so sort
-	sortStrings(out)
+	witnessSortStrings(out)
 	return out
 }
 
-func sortStrings(a []string) {
+func witnessSortStrings(a []string) {
 	for i := 1; i < len(a); i++ {
 		for j := i; j > 0 && a[j] < a[j-1]; j-- {
 			a[j], a[j-1] = a[j-1], a[j]
